@@ -696,6 +696,14 @@ func (f *LogFile) execSeriesEntry(e *LogEntry) {
 	//
 	// https://github.com/influxdata/influxdb/issues/9444
 	if seriesKey == nil {
+		// Without the key the measurement and tag entries cannot be located, but a
+		// tombstone must still take the id out of the file's series set: an older
+		// index file may hold the id, and it would otherwise count as an existing
+		// series again after a restart.
+		if e.Flag == LogEntrySeriesTombstoneFlag {
+			f.seriesIDSet.Remove(e.SeriesID)
+			f.tombstoneSeriesIDSet.Add(e.SeriesID)
+		}
 		return
 	}
 
